@@ -11,6 +11,7 @@
 #include <optional>
 #include <set>
 #include <string>
+#include <thread>
 #include <vector>
 
 #include "Filesystem.hh"
@@ -101,6 +102,40 @@ struct __attribute__((packed)) Odd7 {
 };
 } // namespace
 
+// Another thread of the program reads a different descriptor to its end while the call under test is parked at
+// the return of its k-th read() (data delivered, not yet looked at). A real thread, released and joined by the
+// simulator: the interleaving is the tape's.
+static struct SecondReader {
+  int fd = -1;
+  string want;
+  unsigned fire_at = 0, returns = 0;
+  bool ran = false;
+  string failure;
+} g_second;
+
+static void second_reader_hook() {
+  SecondReader& S = g_second;
+  if (S.ran || ++S.returns < S.fire_at) return;
+  S.ran = true;
+  vfs::world().after_read_hook = nullptr;
+  vfs::Faults saved = vfs::world().faults;
+  vfs::world().faults = vfs::Faults();
+  vfs::Calls saved_calls = vfs::world().calls;
+  ev("second_reader.runs", S.returns);
+  std::thread t([&S]() {
+    try {
+      string r = phosg::read_all(S.fd);
+      if (r != S.want) S.failure = "its read_all(fd) on its own descriptor: " + describe_diff(r, S.want);
+    } catch (const std::exception& e) {
+      S.failure = string("its read_all(fd) on its own, healthy descriptor threw: ") + e.what();
+    }
+  });
+  t.join();
+  vfs::world().faults = saved;
+  vfs::world().calls = saved_calls;
+  VS_FAULT("second_thread_reads_another_fd");
+}
+
 static void scen_stream_fd() {
   count("scenario.stream_fd");
   size_t size = draw_size("A.size");
@@ -123,6 +158,13 @@ static void scen_stream_fd() {
     bool nonblocking = choose(6, "A.nonblocking") == 5;
     fd = vfs::open_stream_fd(D, chunk_mode, chunk, nonblocking);
     if (nonblocking) vfs::world().faults.eagain = (uint32_t)pick({4, 2, 16}, "A.eagain");
+  }
+  g_second = SecondReader();
+  if (choose(8, "A.second_reader") == 7) {
+    g_second.want = gen_content(pick({3000, 1, 100, 16384, 20000}, "A.second_reader.size"), 83);
+    g_second.fd = vfs::open_stream_fd(g_second.want, 1, 4096);
+    g_second.fire_at = 1 + choose(4, "A.second_reader.at");
+    vfs::world().after_read_hook = second_reader_hook;
   }
   vfs::OpenFile* of = vfs::fd_entry(fd);
   if (chunk_mode) mark_nontrivial();
@@ -262,6 +304,11 @@ static void scen_stream_fd() {
     }
     if (failed()) break;
   }
+  vfs::world().after_read_hook = nullptr;
+  if (g_second.ran && !g_second.failure.empty() && !failed()) {
+    fail("read_all_fd/second_reader_disturbed", "second_thread", "a second thread read another descriptor to its end while this call was parked at the return of a read(): " + g_second.failure);
+  }
+  if (g_second.fd >= 0) close(g_second.fd);
   set_context("");
 }
 
@@ -434,10 +481,22 @@ static void scen_stream_file() {
   ino->data = D;
   ino->chunk_mode = chunk_mode;
   ino->chunk = chunk;
+  // what the FILE* sits on: usually a pipe-like stream; sometimes a seekable regular file - an ordinary one, one
+  // whose size cannot be asked for (st_size and SEEK_END are 0, as for /proc files), or one another process
+  // appends to right after the first size query
+  unsigned file_kind = choose(6, "S.file_kind");
+  if (file_kind >= 3) {
+    ino->kind = vfs::Kind::REG;
+    if (file_kind == 4) {
+      ino->sizeless = true;
+      VS_PROBE("FILE_on_sizeless_file");
+    }
+    if (file_kind == 5) ino->appended_after_size_query = gen_content(1 + choose(40000, "S.appended"), 81);
+  }
   int cfd = -1;
-  FILE* f = vfs::fopen_inode(ino, "r", &cfd, false);
+  FILE* f = vfs::fopen_inode(ino, "r", &cfd, file_kind >= 3);
   if (chunk_mode) mark_nontrivial();
-  note("FILE* over " + std::to_string(size) + " bytes, chunk_mode=" + std::to_string(chunk_mode) + " chunk=" + std::to_string(chunk));
+  note("FILE* over " + std::to_string(size) + " bytes, chunk_mode=" + std::to_string(chunk_mode) + " chunk=" + std::to_string(chunk) + " file_kind=" + std::to_string(file_kind));
   size_t pos = 0; // bytes handed to the caller so far
   bool stream_had_error = false;
   unsigned nops = 1 + choose(4, "S.nops");
@@ -462,6 +521,12 @@ static void scen_stream_file() {
         }
         check_budget("read_all_file");
         if (c.errors) VS_PROBE("read_all_file.error_mid_stream");
+        if (ino->data.size() != D.size()) {
+          // the file grew under the call (only if it asked for the size): everything up to the end of file it
+          // read to is the expected result
+          D = ino->data;
+          rem = D.substr(pos);
+        }
         if (!threw) {
           hash_bytes(r.data(), r.size());
           if (r != rem) {
@@ -1188,6 +1253,7 @@ static void scen_dirs() {
     }
     if (!threw) fail("list_directory/missing_dir_accepted", "plain", "list_directory of a missing directory did not throw");
     if (vfs::open_fd_count()) fail("list_directory/fd_leak", "leak", "descriptor left open");
+    if (vfs::world().calls.double_close || vfs::world().calls.ebadf) fail("list_directory/double_close", "close", "list_directory closed a descriptor twice (or used a closed one): in a program with other threads the second close hits whatever was opened under that number meanwhile");
   }
 
   // recursive unlink of a subtree (or the whole tree), optionally with a racing deleter or EACCES
@@ -1567,8 +1633,8 @@ int main(int argc, char** argv) {
       {"concurrent deleter / replacer process", "stub: task scheduled between the library's path-based calls"}};
   e.expected_probes = {"read_all_fd.saw_short_read", "read_all_fd.crossed_16k_block", "read_all_file.error_mid_stream", "read_all_file.crossed_16k_block",
       "fgets.line_longer_than_block", "fgets.line_longer_than_two_blocks", "fgets.line_exactly_block", "readx.threw_on_short", "save_file.threw_on_write_fault",
-      "load_file.threw_on_read_fault", "unlink.threw_on_eacces", "scoped_fd.move_assign_over_open", "scoped_fd.failed_open", "poll.readd_existing", "poll.remove_present", "read_all_fd.real_pipe", "read_helpers_on_regular_file", "tree_with_fifo", "tree_with_symlink", "scoped_fd.holds_descriptor_0", "load_file.file_truncated_concurrently", "read_all_file.real_fd_buffered"};
-  e.expected_faults = {"short_read", "short_write", "EIO@read", "EINTR@read", "ENOSPC@write", "EINTR@write", "EINTR@poll", "EACCES@unlink", "EACCES@rmdir", "concurrent_delete", "ENOSPC@capacity", "EINTR@close", "staggered_pipe_write", "EAGAIN@read", "concurrent_truncate"};
+      "load_file.threw_on_read_fault", "unlink.threw_on_eacces", "scoped_fd.move_assign_over_open", "scoped_fd.failed_open", "poll.readd_existing", "poll.remove_present", "read_all_fd.real_pipe", "read_helpers_on_regular_file", "tree_with_fifo", "tree_with_symlink", "scoped_fd.holds_descriptor_0", "load_file.file_truncated_concurrently", "read_all_file.real_fd_buffered", "FILE_on_sizeless_file"};
+  e.expected_faults = {"short_read", "short_write", "EIO@read", "EINTR@read", "ENOSPC@write", "EINTR@write", "EINTR@poll", "EACCES@unlink", "EACCES@rmdir", "concurrent_delete", "ENOSPC@capacity", "EINTR@close", "staggered_pipe_write", "EAGAIN@read", "concurrent_truncate", "second_thread_reads_another_fd"};
   // "file_replaced_while_open" fires only when the code under test asks the PATH again after opening it;
   // the repository's load_file uses fstat() on the descriptor, so on the unchanged tree the counter stays 0
   return driver_main(argc, argv, e);
